@@ -298,4 +298,10 @@ def parts(tier):
         rule="every (query/copy operation, in-place mutation) sequence on ONE live tier (all tiers of <=2 entries): afterwards the live "
              "tier and a fresh tier with the same fields agree under ~20 observations as receiver and as argument",
         bounds={}, chunk=16))
+    # the list a constructor was handed stays the caller's: two tiers built from one list object are independent, and both stay well-formed
+    from mc.props import c11 as _c11
+    ps.append(InputPart("constructor-argument-independence", _c11._shared_argument_cases, _c11._check_shared_argument,
+                        rule="two tiers constructed from ONE list object (items given as Interval / Point named tuples, plain tuples, lists) x every deleteEntry "
+                             "and a set of insertEntry calls x 3 modes on the first tier: the second tier and the caller's list stay as they were (shared with C11)",
+                        bounds={}))
     return ps
